@@ -226,7 +226,10 @@ pub struct CodegenContext {
     current_scope: IdentifierPath,
     current_scope_nx: SymbolIndex,
 
-    next_macro_scope_id: usize,
+    /// Every place a macro is invoked from gets a number, in order of appearance, that it keeps in all passes
+    macro_sites: HashMap<usize, usize>,
+    /// How many times a macro was invoked from a certain place within a certain scope, in the current pass
+    macro_invocations: HashMap<(SymbolIndex, usize), usize>,
     macro_depth: usize,
     macro_depth_exceeded: bool,
     nesting_depth: usize,
@@ -281,7 +284,8 @@ impl CodegenContext {
             changed: HashSet::new(),
             current_scope: IdentifierPath::empty(),
             current_scope_nx: SymbolIndex::new(0),
-            next_macro_scope_id: 0,
+            macro_sites: HashMap::new(),
+            macro_invocations: HashMap::new(),
             macro_depth: 0,
             macro_depth_exceeded: false,
             nesting_depth: 0,
@@ -376,7 +380,7 @@ impl CodegenContext {
 
     fn next_pass(&mut self) {
         self.pass_idx += 1;
-        self.next_macro_scope_id = 0;
+        self.macro_invocations.clear();
         self.macro_depth = 0;
         self.macro_depth_exceeded = false;
         self.nesting_depth = 0;
@@ -1220,9 +1224,7 @@ impl CodegenContext {
                             .into());
                     }
 
-                    let macro_scope =
-                        Identifier::new(format!("$macro_{}", self.next_macro_scope_id));
-                    self.next_macro_scope_id += 1;
+                    let macro_scope = self.next_macro_scope(name.span);
 
                     // The arguments are evaluated in the scope of the invocation, and not in the scope of the macro itself,
                     // since there they could refer to the macro's own arguments and 'super' would be one level off
@@ -1501,6 +1503,27 @@ impl CodegenContext {
         result
     }
 
+    /// The scope for the next invocation of a macro from a certain place. The name of the scope is tied to that place (and
+    /// to the how-manieth invocation from there it is within the current scope, e.g. in a loop), so that in every pass
+    /// an invocation gets the scope it had in the previous pass, also when other invocations come and go.
+    fn next_macro_scope(&mut self, invoked_from: Span) -> Identifier {
+        let next_site = self.macro_sites.len();
+        let site = *self
+            .macro_sites
+            .entry(invoked_from.low().as_usize())
+            .or_insert(next_site);
+        let nth = self
+            .macro_invocations
+            .entry((self.current_scope_nx, site))
+            .or_insert(0);
+        let scope = match *nth {
+            0 => format!("$macro_{}", site),
+            nth => format!("$macro_{}_{}", site, nth),
+        };
+        *nth += 1;
+        Identifier::new(scope)
+    }
+
     fn with_scope<F: FnOnce(&mut Self) -> CoreResult<()>>(
         &mut self,
         scope: &Identifier,
@@ -1633,9 +1656,7 @@ impl CodegenContext {
                     if s.symbol_definition(symbol_nx).is_unused() {
                         // Just like a real invocation the body gets a scope of its own, in which the arguments exist.
                         // Otherwise the symbols the macro defines would end up in (and clash with) the root scope.
-                        let macro_scope =
-                            Identifier::new(format!("$macro_{}", s.next_macro_scope_id));
-                        s.next_macro_scope_id += 1;
+                        let macro_scope = s.next_macro_scope(def.id.span);
                         let _ = s.with_scope(&macro_scope, None, |s| {
                             for arg_name in &def.args {
                                 let _ = s.add_symbol(
